@@ -684,3 +684,41 @@ func ruleNoGlobalAliasing(p *Prog, l *Ledger, tier string) {
 func scopeTeletextPID(p *Prog, l *Ledger, rule string) []*ssa.Function {
 	return p.fnsByName(l, rule, []string{"teletextPID"})
 }
+
+// ---- E5-R5.5 attribute propagation leaves the format's own attributes alone (round 8, C05) ----------------
+// StyleAttributes.propagate<F>Attributes derives the attributes of the other formats from those of
+// format F (what the reader of F has just stored).  It may write any field except those of F itself,
+// and nothing behind a pointer held in a field of F (STLPosition, …): a "clamp" or "normalisation"
+// done through such a pointer silently rewrites what the reader returned for the file.
+func rulePropagateKeepsSource(p *Prog, l *Ledger, tier string) {
+	const rule = "E5.R5.5-propagate-keeps-source"
+	eff := ComputeEffects(p)
+	n := 0
+	for _, g := range []string{"SRT", "SSA", "STL", "Teletext", "TTML", "WebVTT"} {
+		name := "StyleAttributes.propagate" + g + "Attributes"
+		fn := p.Fn(name)
+		if fn == nil {
+			continue
+		}
+		n++
+		key := rule + "|" + name
+		bad := ""
+		sum := eff.Sum[fn]
+		if sum != nil {
+			for _, ef := range sortedEffects(sum.Effects) {
+				if strings.HasPrefix(ef.Loc, "StyleAttributes."+g) {
+					bad = fmt.Sprintf("it writes %s at %s", ef.Loc, p.Pos(ef.Pos))
+				}
+				if ef.CT != "" && ef.CT != "StyleAttributes" && strings.HasPrefix(strings.TrimPrefix(ef.CT, "*"), g) {
+					bad = fmt.Sprintf("it writes %s (an object held in a %s field) at %s", ef.Loc, g, p.Pos(ef.Pos))
+				}
+			}
+		}
+		if bad == "" {
+			l.Prove(rule, name, key, p.Pos(fn.Pos()), "writes no "+g+" attribute and nothing behind one")
+		} else {
+			l.Fail(rule, name, key, p.Pos(fn.Pos()), name+" derives the other formats' attributes from the "+g+" ones, but "+bad+": the value the "+g+" reader returned for the file is rewritten")
+		}
+	}
+	l.Min(rule, n, 5)
+}
